@@ -2,6 +2,7 @@ package queryer
 
 import (
 	"context"
+	"errors"
 	"net/http"
 
 	"github.com/buildbuildio/pebbles/common"
@@ -138,6 +139,10 @@ func (q *MultiOpQueryer) queryBatch(inputs []*requests.Request) ([]map[string]in
 			return nil, resp.Errors
 		}
 
+		if resp.Data == nil {
+			return nil, errors.New("response carries neither data nor errors")
+		}
+
 		results[i] = resp.Data
 	}
 
@@ -156,6 +161,11 @@ func (q *MultiOpQueryer) queryBatch(inputs []*requests.Request) ([]map[string]in
 		if len(resp.Errors) != 0 {
 			return nil, resp.Errors
 		}
+
+		if resp.Data == nil {
+			return nil, errors.New("response carries neither data nor errors")
+		}
+
 		results[toFetchIndexes[i]] = resp.Data
 	}
 
